@@ -29,7 +29,7 @@ class C01(Prop):
     partial = 'partial: real stack depth and wall-clock time are runtime behaviour; the theorems bound passes and exclude every modelled panic site, the harness measures time on size ladders and runs debug and release builds with overflow checks on an 8 MiB stack'
     rule = 'mixed generator streams (grids over the full alphabet incl. controls, zero/double width, non-BMP; mutated examples; shapes; text channels; malformed quotes/braces/legends), each under one of the five entry points with random settings; non-trivial when the input has at least one non-blank character'
     level_text = ('Theorems C01_*_total: for every list of scalars and every settings value each of the five entry points of the model returns Ok: no modelled panic site (expect/unwrap/slice/index/panic!) is reachable and no loop runs out of fuel; '
-                  'C01_merge_loop_terminates bounds the passes of the generic merge loop by the list length for every merge function. Proved by induction (M1 fuel, M2 invariant transport for non-empty spans, selector lemmas for as_line/as_arc, position lemmas for the escape slices).')
+                  'C01_merge_loop_terminates bounds the passes of the generic merge loop by the list length for every merge function, and C01_merge_loop_cost bounds the number of applications of merge by (n+1)*n^2 for a list of n items (counted along the very definitions of the loop, for every merge function: the loop is polynomial, not merely terminating). Proved by induction (M1 fuel, M2 invariant transport for non-empty spans, selector lemmas for as_line/as_arc, position lemmas for the escape slices).')
     level_note = 'partial: stack depth, wall-clock time and arithmetic overflow are runtime; overflow beyond 2^31 cells excluded by assumption; the model is tied to the code stage by stage on every run'
     def make(self, gen, text, spec, entry):
         return single(gen, text, spec, entry, factory=lambda t: self.make(gen, t, spec, entry))
